@@ -19,13 +19,13 @@ SeqSet(sq) == {sq[n] : n \in 1..Len(sq)}
 TrRequest == Is("Request") /\ Request(E.key)
 TrStart   == Is("Start") /\ Start /\ E.qlen = BagCardinality(queue')
 TrPop     == Is("Pop") /\ Pop(<<E.task, E.dep>>)
-             /\ (E.ntasks # -1 => (E.new <=> E.task \notin tasks) /\ E.ntasks = Cardinality(tasks'))
+             /\ (E.ntasks # -1 => ((E.new <=> E.task \notin tasks) /\ E.ntasks = Cardinality(tasks')))
              /\ E.qlen = BagCardinality(queue')
 \* the recorded order is a topological order of the model's graph over exactly the model's tasks
 Pos(sq, t) == CHOOSE n \in 1..Len(sq) : sq[n] = t
 TrSort    == Is("Sort") /\ Sort
              /\ SeqSet(E.order) = tasks
-             /\ \A e \in edges : Pos(E.order, e[1]) < Pos(E.order, e[2])
+             /\ (\A e \in edges : Pos(E.order, e[1]) < Pos(E.order, e[2]))
              /\ {<<g[1], g[2]>> : g \in SeqSet(E.edges)} = edges
 \* one task evaluated: enabled in the model (all dependencies stored), reads exactly its dependencies
 \* (WHICH store they are read from is C02's clause, validated by Trace_ShearAdi.tla, not here)
